@@ -13,8 +13,12 @@ PROP = {'title': 'Checked conversions and integer helpers equal their mathematic
          'for div/mod/diff on 8 bit, on 16 bit in the thorough tier), the boundary lattice {0,+-1,+-(2^k-1),+-2^k,+-(2^k+1),min,max,...} '
          'for 32/64 bit, dense squares for ceil_div(_signed); oracle = __int128 arithmetic; a case is non-trivial when it sits at or '
          'across a type/size boundary, has a non-zero remainder, a negative operand or differs from its operand (per-function predicate in '
-         'harness/C06.cpp); cases are distinct argument tuples',
+         'harness/C06.cpp); cases are distinct argument tuples. from_int: enums with 1..200 enumerators and enums whose size is 255, 256, 257, 300, 512, 65535, 65536, '
+         '65537, 70000, 2^32, 2^32+1 (the size does not fit the 8/16/32-bit value type) x value types u8/u16 (every value), u32/u64 (lattice plus the values around the '
+         'size). math::mod<float/double> (documented as std::fmod): all ordered pairs from a domain of multiples of 1/4 (0..65 in quarters, 2^k and its neighbours, '
+         '2^k+-1, 1.25*2^k for k = 7..118, powers of ten), both signs of the dividend, oracle = 128-bit integer remainder of the operands scaled by 4',
  'assumptions': ["cases whose exact result is not representable in the result type are skipped (statement: 'whenever it is representable')",
                  'log2(0) is documented as undefined and skipped',
                  '32/64-bit types are covered on the boundary lattice only',
+                 'floating-point mod is compared on operands that are multiples of 1/4 below 2^120 (where the exact remainder is computable in 128-bit integers); div/diff/clamp for floating point are not covered',
                  'interval_distance is compared only where its documentation is unambiguous (no shared end point with containment)']}
